@@ -170,6 +170,13 @@ Definition run_step_ser (rnd : oracle) (l : list N) : list N :=
   | _ => [777]
   end.
 
+(* the model's timer order key for a serialised timer (compared with the real Ord of Timer) *)
+Definition run_timer_seq (l : list N) : list N :=
+  match ptimer l with
+  | Some (t, []) => [timer_seq t]
+  | _ => [777]
+  end.
+
 (* oracle from a recorded list of answers (used by the vm_compute replay) *)
 Definition list_oracle (answers : list (list N)) : oracle :=
   fun k _ => nth (N.to_nat k) answers [].
